@@ -37,11 +37,12 @@ THEOREMS = [
     "C19_form_frac", "C19_form_sSup", "C19_form_sSub", "C19_form_sSubSup", "C19_form_rad",
     "C19_form_nary", "C19_form_delim", "C19_form_matrix", "C19_form_func", "C19_form_bar", "C19_form_acc",
     "C19_own_operator", "C19_texts_in_order_partial",
+    "C19_depth_bounded", "C19_depth_equals_height_default",
 ]
 INST = ["C19_tables_wf", "C19_structural_not_skipped", "C19_nobrace_witnesses",
         "C19_orig_total_refuted", "C19_orig_balanced_refuted", "C19_orig_balanced_refuted_deg_order",
         "C19_orig_own_operator_refuted", "C19_orig_none_rendered", "C19_known_witnesses_repaired",
-        "C19_tables_wf_txt", "C19_texts_ok_nonvacuous"]
+        "C19_tables_wf_txt", "C19_texts_ok_nonvacuous", "C19_depth_examples"]
 
 
 # ----------------------------------------------------------------------------- G: tables
@@ -670,6 +671,106 @@ def form_broken(mod, tabs, lost, root):
     return None
 
 
+def twin_convert(root, tabs):
+    """The documented templates with the pending-radical stack threaded through the operands in source order — the
+    Python twin of C19.Model.process (variant fixed).  Used as the reference form OUTSIDE the calm fragment."""
+    ns, skip, gmap = tabs["m_ns"], tabs["skip"], tabs["greek"]
+    pend = []
+
+    def own(el, pr, name):
+        return own_chr(el, ns, pr, name)
+
+    def P(el):
+        if el is None:
+            return ""
+        lt = local(el.tag)
+        if lt in skip:
+            return ""
+        if lt == "t":
+            conv, out = "".join(gmap.get(c, c) for c in (el.text or "")), []
+            while pend and pend[-1] in conv:
+                i = conv.index(pend.pop())
+                out.append(conv[:i] + "}")
+                conv = conv[i + 1:]
+            return "".join(out) + conv
+        f = lambda n: P(el.find(ns + n))
+        if lt == "f":
+            a = f("num"); b = f("den")
+            return "\\frac{" + a + "}{" + b + "}"
+        if lt == "sSup":
+            a = f("e"); b = f("sup")
+            return a + "^{" + b + "}"
+        if lt == "sSub":
+            a = f("e"); b = f("sub")
+            return a + "_{" + b + "}"
+        if lt == "sSubSup":
+            a = f("e"); b = f("sub"); c = f("sup")
+            return a + "_{" + b + "}^{" + c + "}"
+        if lt == "rad":
+            d = f("deg").strip(); c = f("e")
+            head = "\\sqrt[" + d + "]{" if d else "\\sqrt{"
+            if c.strip() in tabs["open_brackets"]:
+                pend.append(tabs["bracket_map"].get(c.strip(), ")"))
+                return head
+            return head + c + "}"
+        if lt == "nary":
+            ch = own(el, "naryPr", "chr")
+            op = ch.get(ns + "val", "∑") if ch is not None else "∑"
+            a = f("sub"); b = f("sup"); c = f("e")
+            return (tabs["op_map"].get(op, "".join(gmap.get(x, x) for x in op)) + ("_{" + a + "}" if a.strip() else "")
+                    + ("^{" + b + "}" if b.strip() else "") + " " + c)
+        if lt == "d":
+            bc, ec = own(el, "dPr", "begChr"), own(el, "dPr", "endChr")
+            parts = [P(c) for c in el.findall(ns + "e")]
+            return ((bc.get(ns + "val", "(") if bc is not None else "(") + ", ".join(parts)
+                    + (ec.get(ns + "val", ")") if ec is not None else ")"))
+        if lt == "m" and el.find(ns + "mr") is not None:
+            rows = [" & ".join([P(c) for c in r.findall(ns + "e")]) for r in el.findall(ns + "mr")]
+            return "\\begin{matrix}" + " \\\\ ".join(rows) + "\\end{matrix}"
+        if lt == "func":
+            nm = f("fName"); c = f("e")
+            return tabs["func_map"].get(nm.strip(), nm) + "{" + c + "}"
+        if lt == "bar":
+            return "\\overline{" + f("e") + "}"
+        if lt == "acc":
+            ch = own(el, "accPr", "chr")
+            a = ch.get(ns + "val") if ch is not None else "^"
+            return tabs["accent_map"].get(a, "\\hat") + "{" + f("e") + "}"
+        return "".join([P(c) for c in el])
+    out = "".join([P(c) for c in root])
+    return out + "}" * len(pend)
+
+
+def twin_broken(mod, tabs, root):
+    """schema-shaped tree whose rendering differs from the templates-with-pending-state reference"""
+    if not schema_ok(root, tabs, root=True):
+        return None
+    got, want = mod.omml_to_latex(root), twin_convert(root, tabs)
+    return None if got == want else f"renders as {got!r}; documented templates with the pending-radical state threaded give {want!r}"
+
+
+def measured_depth(mod, e):
+    """maximal number of simultaneously active frames of the recursive worker during omml_to_latex(e)"""
+    fn = getattr(mod, "__file__", None)
+    cur = mx = 0
+
+    def prof(frame, event, arg):
+        nonlocal cur, mx
+        co = frame.f_code
+        if co.co_filename == fn and co.co_name.endswith("process_element"):
+            if event == "call":
+                cur += 1
+                mx = max(mx, cur)
+            elif event == "return":
+                cur -= 1
+    sys.setprofile(prof)
+    try:
+        out = mod.omml_to_latex(e)
+    finally:
+        sys.setprofile(None)
+    return out, mx
+
+
 def relabel(tree, lost):
     """replace every run-text character that is neither whitespace nor a bracket by a unique private-use code point
     (document order); whitespace and brackets stay, so the converter's control flow is unchanged"""
@@ -736,12 +837,14 @@ def shrink(mod, tree, pred):
 
 
 REPORTED: dict = {}
+DEPTHS = [0]
 
 
 def check_tree(ctx, mod, tabs, tree, lost, kind):
     """run the implementation on one harness tree, apply the property oracle; returns (coq case, info)"""
     xml = to_xml(tree, root=True)
     e, out, exc = impl(mod, xml)
+    depth = 0
 
     def report(key_prefix, what, pred, extra=None):
         cat = key_prefix.split(":")[0]
@@ -768,7 +871,9 @@ def check_tree(ctx, mod, tabs, tree, lost, kind):
     else:
         e2, out2, exc2 = impl(mod, xml)
         before = ET.tostring(e)
-        again = mod.omml_to_latex(e)
+        again, depth = measured_depth(mod, e)
+        if depth:
+            DEPTHS[0] += 1
         if ET.tostring(e) != before or ET.tostring(e) != ET.tostring(e2):
             def pm(v):
                 ev = ET.fromstring(to_xml(v, root=True))
@@ -802,6 +907,21 @@ def check_tree(ctx, mod, tabs, tree, lost, kind):
                        lambda v: multiplicity_broken(mod, tabs, lost, v) is not None)
             if calm(e, lost):
                 ctx.count("form-oracle-applied")
+            else:
+                ctx.count("form-twin-applied")
+                try:
+                    tb = twin_broken(mod, tabs, e)
+                except Exception:  # noqa
+                    tb = None
+                if tb:
+                    def pt(v):
+                        try:
+                            return twin_broken(mod, tabs, ET.fromstring(to_xml(v, root=True))) is not None
+                        except Exception:  # noqa
+                            return False
+                    report("form", "an element is not rendered in its documented form with every operand in place "
+                           "(tree with bracket characters: pending-radical state threaded)", pt,
+                           extra=lambda v: twin_broken(mod, tabs, ET.fromstring(to_xml(v, root=True))))
             try:
                 fb = form_broken(mod, tabs, lost, e)
             except Exception:  # noqa  (exceptions are reported by the totality oracle)
@@ -833,7 +953,7 @@ def check_tree(ctx, mod, tabs, tree, lost, kind):
     tags = {local(x.tag) for x in e.iter()}
     nontriv = bool(tags & STRUCTURAL) and any(local(x.tag) == "t" and x.text for x in e.iter())
     ctx.case(xml, nontriv, kind=kind.split("/")[0])
-    coq = f"({el_to_coq(e)}, {coq_opt(out, coq_str)}, {coq_str(exc)})"
+    coq = f"({el_to_coq(e)}, {coq_opt(out, coq_str)}, {coq_str(exc)}, {depth if not exc else 0}%nat)"
     return coq, (xml, out, exc)
 
 
@@ -972,8 +1092,8 @@ def run(ctx):
         return
     lost = lost_chars(tabs)
 
-    ctx.prove("C19/Props.v", ["C19/Proofs.vo", "C19/Texts.vo"], expected=THEOREMS)
-    ctx.prove("C19/Inst.v", ["Gen/C19Tables.vo", "C19/Corr.vo", "C19/Proofs.vo", "C19/TextSpec.vo"], expected=INST)
+    ctx.prove("C19/Props.v", ["C19/Proofs.vo", "C19/Texts.vo", "C19/Depth.vo"], expected=THEOREMS)
+    ctx.prove("C19/Inst.v", ["Gen/C19Tables.vo", "C19/Corr.vo", "C19/Proofs.vo", "C19/TextSpec.vo", "C19/Depth.vo"], expected=INST)
 
     # ---- history oracle (forked processes; independent of what this process has converted so far)
     history_oracle(ctx, mod, tabs)
@@ -1006,8 +1126,8 @@ def run(ctx):
         ctx.finding("none-input", f"omml_to_latex(None) -> {none_out!r}", {"input": None, "output": none_out})
 
     pre = PREAMBLE
-    ok, failing, log = coq_eval_shards(ctx, "corr", pre, "(corr_case T fixed)", coq_cases, shard=400,
-                                       ty="omml * option str * str")
+    ok, failing, log = coq_eval_shards(ctx, "corr", pre, "(corr_case_d T fixed)", coq_cases, shard=400,
+                                       ty="omml * option str * str * nat")
     ctx.traces += len(coq_cases)
     ctx.disagreements += len(failing)
     detail = ""
@@ -1017,8 +1137,8 @@ def run(ctx):
         for name, term in VARIANTS.items():
             if name == "fixed":
                 continue
-            ok2, f2, _ = coq_eval_shards(ctx, "diag", pre, f"(corr_case T {term})", sub, shard=400,
-                                         ty="omml * option str * str")
+            ok2, f2, _ = coq_eval_shards(ctx, "diag", pre, f"(corr_case_d T {term})", sub, shard=400,
+                                         ty="omml * option str * str * nat")
             if ok2 and not f2:
                 match.append(name)
         ctx.extra["corr_disagreements"] = [list(map(str, infos[i])) for i in failing[:8]]
@@ -1027,8 +1147,13 @@ def run(ctx):
                   f"model variants that explain them: {match or 'none'} ")
     ctx.obligation("correspondence:model(fixed)==omml_to_latex on parsed trees", ok and not failing, (detail + log)[:1500])
     ctx.extra["corr_cases"] = len(coq_cases)
+    # fail closed when the frame probe no longer recognises the recursive worker (depth part of the correspondence)
+    ctx.obligation("inventory:recursive-worker-frames-observed(depth correspondence active)",
+                   DEPTHS[0] * 2 > len(coq_cases), f"worker frames seen in {DEPTHS[0]} of {len(coq_cases)} conversions")
+    ctx.extra["depth_measured_cases"] = DEPTHS[0]
 
     entry_points(ctx, mod)
+    deep_and_pptx(ctx, mod, tabs)
 
 
 def entry_points(ctx, mod):
@@ -1073,6 +1198,145 @@ def entry_points(ctx, mod):
         except Exception as ex:  # noqa
             ctx.finding(f"docx-extraction-fails:{name}", f"read_docx fails on a document whose only special content is the formula {name}: {type(ex).__name__}: {ex}",
                         {"document_xml": doc, "exception": repr(ex)})
+
+
+def chain_formula(n, kind):
+    """n nested fractions / plain containers around one run"""
+    o, c = (("<m:f><m:num>", "</m:num><m:den><m:r><m:t>1</m:t></m:r></m:den></m:f>") if kind == "f"
+            else ("<m:box><m:e>", "</m:e></m:box>"))
+    return f'<m:oMath xmlns:m="{MATH}">' + o * n + "<m:r><m:t>x</m:t></m:r>" + c * n + "</m:oMath>"
+
+
+def docx_bytes(body_inner):
+    import io
+    import zipfile
+    ct = ('<?xml version="1.0"?><Types xmlns="http://schemas.openxmlformats.org/package/2006/content-types">'
+          '<Default Extension="rels" ContentType="application/vnd.openxmlformats-package.relationships+xml"/>'
+          '<Default Extension="xml" ContentType="application/xml"/></Types>')
+    rels = ('<?xml version="1.0"?><Relationships xmlns="http://schemas.openxmlformats.org/package/2006/relationships">'
+            '<Relationship Id="rId1" Type="http://schemas.openxmlformats.org/officeDocument/2006/relationships/officeDocument" '
+            'Target="word/document.xml"/></Relationships>')
+    doc = f'<?xml version="1.0"?><w:document xmlns:w="{WORD}"><w:body>{body_inner}</w:body></w:document>'
+    buf = io.BytesIO()
+    with zipfile.ZipFile(buf, "w") as z:
+        z.writestr("[Content_Types].xml", ct)
+        z.writestr("_rels/.rels", rels)
+        z.writestr("word/document.xml", doc)
+    buf.seek(0)
+    return buf
+
+
+def pptx_bytes(math_xml):
+    """the repository's formula fixture with the content of its a14:m element replaced (None if the fixture changed)"""
+    import io
+    import zipfile
+    src = common.REPO / "sharepoint2text/tests/resources/modern_ms/pptx_formula_image.pptx"
+    buf = io.BytesIO()
+    done = False
+    with zipfile.ZipFile(src) as zi, zipfile.ZipFile(buf, "w") as zo:
+        for it in zi.infolist():
+            data = zi.read(it.filename)
+            if it.filename == "ppt/slides/slide1.xml":
+                t = data.decode("utf-8")
+                m = re.search(r"<a14:m>.*?</a14:m>", t, re.S)
+                if m:
+                    t = t[:m.start()] + math_xml + t[m.end():]
+                    done = True
+                data = t.encode("utf-8")
+            zo.writestr(it, data)
+    buf.seek(0)
+    return buf if done else None
+
+
+def expected_formulas(mod, scope):
+    """what the extractors document: every m:oMathPara contributes its first m:oMath as a display formula, every other
+    m:oMath is inline; blank conversions are dropped"""
+    ns = "{" + MATH + "}"
+    disp, seen = [], set()
+    for para in scope.iter(ns + "oMathPara"):
+        om = para.find(ns + "oMath")
+        if om is not None:
+            seen.add(id(om))
+            disp.append((mod.omml_to_latex(om), True))
+    inl = [(mod.omml_to_latex(om), False) for om in scope.iter(ns + "oMath") if id(om) not in seen]
+    return [x for x in disp + inl if x[0].strip()]
+
+
+def deep_and_pptx(ctx, mod, tabs):
+    """(a) formulas reach read_pptx through a14:m / mc:AlternateContent; (b) very deep formulas: the converter's only
+    depth consumer is the recursion bounded by C19_depth_bounded — beyond the interpreter's limit it raises
+    RecursionError (known finding), which must never escape read_docx / read_pptx as such"""
+    from sharepoint2text.parsing.exceptions import ExtractionError
+    from sharepoint2text.parsing.extractors.ms_modern import docx_extractor, pptx_extractor
+    MC = "http://schemas.openxmlformats.org/markup-compatibility/2006"
+    A14 = "http://schemas.microsoft.com/office/drawing/2010/main"
+    inner = lambda f: f[f.index(">") + 1:f.rindex("</m:oMath>")]   # children of an <m:oMath ...> string
+    f1 = f'<m:oMath xmlns:m="{MATH}"><m:f><m:num><m:r><m:t>a</m:t></m:r></m:num><m:den><m:r><m:t>b</m:t></m:r></m:den></m:f></m:oMath>'
+    f2 = f'<m:oMath xmlns:m="{MATH}"><m:d><m:e><m:r><m:t>x</m:t></m:r></m:e><m:e/></m:d></m:oMath>'
+    f3 = f'<m:oMath xmlns:m="{MATH}"><m:rad><m:deg/><m:e><m:r><m:t>(</m:t></m:r></m:e></m:rad><m:r><m:t>y)</m:t></m:r></m:oMath>'
+    variants = {
+        "inline": f'<a14:m xmlns:a14="{A14}">{f1}</a14:m>',
+        "display-para-two": f'<a14:m xmlns:a14="{A14}"><m:oMathPara xmlns:m="{MATH}">{f1}{f2}</m:oMathPara></a14:m>',
+        "alternate-content": (f'<mc:AlternateContent xmlns:mc="{MC}"><mc:Choice xmlns:a14="{A14}" Requires="a14"><a14:m>'
+                              f'<m:oMathPara xmlns:m="{MATH}">{f3}</m:oMathPara></a14:m></mc:Choice>'
+                              f'<mc:Fallback><a:r xmlns:a="http://schemas.openxmlformats.org/drawingml/2006/main"><a:t>[formula]</a:t></a:r></mc:Fallback></mc:AlternateContent>'),
+        "blank-formula": f'<a14:m xmlns:a14="{A14}"><m:oMath xmlns:m="{MATH}"><m:r><m:t> </m:t></m:r></m:oMath>{f2}</a14:m>',
+    }
+    for name, mx in variants.items():
+        buf = pptx_bytes(mx)
+        ctx.case(("pptx", name), True, kind="entry:pptx")
+        if buf is None:
+            ctx.obligation("inventory:pptx formula fixture has an a14:m element to substitute", False, "fixture changed")
+            break
+        want = expected_formulas(mod, ET.fromstring(mx))
+        try:
+            res = list(pptx_extractor.read_pptx(buf, path="f.pptx"))
+            got = [(f.latex, f.is_display) for sl in res[0].slides for f in sl.formulas]
+            text = res[0].get_full_text()
+            missing = [w for w in want if (("$$" + w[0] + "$$") if w[1] else ("$" + w[0] + "$")) not in text]
+            if got != want or missing:
+                ctx.finding(f"pptx-formulas:{name}", f"read_pptx formulas {got} differ from the documented {want} "
+                            f"(or not in the slide text: {missing})", {"a14m_xml": mx, "got": got, "want": want})
+        except Exception as ex:  # noqa
+            ctx.finding(f"pptx-extraction-fails:{name}", f"read_pptx fails on a slide whose formula is {name}: "
+                        f"{type(ex).__name__}: {ex}", {"a14m_xml": mx, "exception": repr(ex)})
+    else:
+        ctx.obligation("inventory:pptx formula fixture has an a14:m element to substitute", True)
+
+    # ---- depth
+    limit = sys.getrecursionlimit()
+    for kind in ("box", "f"):
+        for n in (100, 400, 2000):
+            fx = chain_formula(n, kind)
+            ctx.case(("deep", kind, n), True, kind="deep")
+            try:
+                out = mod.omml_to_latex(ET.fromstring(fx))
+                if "x" not in out or not balanced(out):
+                    ctx.finding(f"deep-wrong-output:{kind}:{n}", f"{n} nested <m:{kind}> convert to a wrong string ({out[:60]!r}...)",
+                                {"nesting": n, "kind": kind})
+            except RecursionError:
+                # genuine, recorded: the recursion needs one frame per tree level (C19_depth_equals_height_default)
+                ctx.finding("deep-nesting-recursionerror",
+                            f"omml_to_latex raises RecursionError on {n} nested <m:{kind}> (tree height {2 * n + 2}, "
+                            f"interpreter limit {limit})", {"nesting": n, "kind": kind, "make": "chain_formula(n, kind)"})
+            except Exception as ex:  # noqa
+                ctx.finding(f"deep-raises:{type(ex).__name__}", f"omml_to_latex raises {type(ex).__name__} on {n} nested <m:{kind}>",
+                            {"nesting": n, "kind": kind})
+        # through the extractors: a result or an ExtractionError-family failure, never a bare RecursionError
+        fx = chain_formula(2000, kind)
+        for label, call in (("read_docx", lambda: list(docx_extractor.read_docx(
+                                docx_bytes(f"<w:p><w:r><w:t>before </w:t></w:r>{fx}</w:p>"), path="f.docx"))),
+                            ("read_pptx", lambda: list(pptx_extractor.read_pptx(
+                                pptx_bytes(f'<a14:m xmlns:a14="{A14}">{fx}</a14:m>'), path="f.pptx")))):
+            ctx.case(("deep-entry", label, kind), True, kind="deep")
+            try:
+                call()
+            except ExtractionError:
+                pass
+            except BaseException as ex:  # noqa
+                ctx.finding(f"deep-escapes:{label}:{type(ex).__name__}",
+                            f"{label} lets {type(ex).__name__} escape for a document with 2000 nested <m:{kind}> "
+                            "(must be a result or an ExtractionError)", {"nesting": 2000, "kind": kind, "entry": label})
 
 
 META = {
